@@ -8,6 +8,9 @@ import Qryn.Proofs.InternalPathSyntax
 import Qryn.Proofs.InternalMetricBridge
 import Qryn.Proofs.InternalAggBridge
 import Qryn.Gen.InternalAgg
+import Qryn.Proofs.InternalPlanCompose
+import Qryn.Proofs.InternalVecCompose
+import Qryn.Props.C08
 import Qryn.Read.JsonPathSyntax
 import Qryn.LogQL.PostMetric
 import Qryn.Gen.InternalPlanner
@@ -1347,6 +1350,236 @@ example :
           (pts.map (scanPt cxO ⟨0, 1, 0, false, 1, false, "g", "s", "t", "t"⟩ ⟨[], [], []⟩ ⟨[], []⟩)))).flatten.map
         (fun e => (e.labels, e.ts, e.val))) = [([], 0, 5)] := by
   decide +kernel
+
+/-! ### the two ends joined: the real whole-query statement vs log rows + aggregation in process (extension c09p)
+
+`engines_agree_rangeAgg / _unwrapAgg / _byWithout` end in C08's `rangePoints`; C08's plan theorems say the SQL semantics of the
+REAL whole-query statement (`evalSelA (planMetric …)`, value column read as a number) is `evalMetric`, built from those points.
+The corollaries below compose the two literally: left, the in-process engine over any batching of the rows of the real selector
+statement; right, `MatrixHas` of the answer of the real whole-query statement. Only the named data hypotheses remain. -/
+
+/-- **`fn({sel} filters [d])`, fn ∈ rate / count_over_time / bytes_rate / bytes_over_time, one theorem from statement to
+    statement.** Left: ClickHouse evaluates the real statement of `{sel} filters` (`chRows`), the getter scans, any batching,
+    `internal_planner` aggregates. Right: ClickHouse evaluates the real statement of the whole metric query
+    (`planMetric`, samples path or metrics_15s shortcut). Same samples: label set, bucket start, value. Composition of
+    `engines_agree_rangeAgg` with C08 `plan_metric_correct`. Hypotheses: exact rationals; distinct table names; `SeriesStoreOk`;
+    ≤ 63 matchers; window of whole range buckets; step ≤ range (above: the recorded finding); the series cap; on the
+    metrics_15s path C08's `ShortcutOk`. -/
+theorem engines_agree_rangeAgg_sql (parse : Bytes → Option Rat) (o : Oracles) (E : Env Rat) (hE : E.num = ratOps parse)
+    (h0 : E.o.isNum [] = false) (mc : MCtx) (hn : mc.namesOk) (d : LokiDb) (hd : SeriesStoreOk o mc.toCtx d)
+    (ms : List Matcher) (hm : ms.length ≤ 63) (fs : List Stage)
+    (fn : Read.RangeFn) (fn' : LogQL.RangeFn) (hfn : toLra fn = some fn')
+    (dur k n : Nat) (hdur : 0 < dur) (hfrom : mc.fromNs = (k : Int) * dur) (hto : mc.toNs = mc.fromNs + (n : Int) * dur)
+    (hstep : mc.stepNs ≤ (dur : Int))
+    (hsc : takesShortcut (.range ⟨.lra fn', ⟨ms, fs⟩, dur, none, none, none⟩) = true →
+      ShortcutOk o d (.range ⟨.lra fn', ⟨ms, fs⟩, dur, none, none, none⟩))
+    (rc : Read.Ctx) (hrf : rc.fromNs = mc.fromNs) (hrt : rc.toNs = mc.toNs)
+    (hcap : (Stages.firstBy (fun e : Entry Rat => e.fp) (chRows E.num o mc.toCtx d ms (fs.map .fl))).length ≤ rc.maxSeries)
+    (bs : Batches Rat) (hbs : bs.flatten = chRows E.num o mc.toCtx d ms (fs.map .fl))
+    (l : Read.Labels) (t : Int) (v : Rat) :
+    (∃ e ∈ (runPlan E rc ⟨[], some (.range fn, dur), none, none, none⟩ bs).flatten, e.labels = l ∧ e.ts = t ∧ e.val = v) ↔
+    MatrixHas ((evalSelA o (d.toDbM mc) (planMetric mc (.range ⟨.lra fn', ⟨ms, fs⟩, dur, none, none, none⟩))).map normRow) l t v := by
+  rw [engines_agree_rangeAgg parse o E hE h0 mc.toCtx hn.1 d hd ms hm fs fn fn' hfn dur k n hdur hfrom hto rc hrf hrt hcap bs hbs l t v]
+  rw [C08.plan_metric_correct o mc hn d _ (by simp [supported, MetricQuery.rangeAgg, hdur, hm]) hsc, matrixHas_evalMetric,
+    effWindow_whole mc (.range ⟨.lra fn', ⟨ms, fs⟩, dur, none, none, none⟩) k n hfrom hto, metricPoints_range o mc d _ rfl hstep]
+  have hnull : ∀ pt ∈ rangePoints o mc.toCtx d ⟨.lra fn', ⟨ms, fs⟩, dur, none, none, none⟩ mc.fromNs mc.toNs,
+      ∃ fp, pt.key = .int fp ∧ ptLabels o mc.toCtx d ⟨ms, fs⟩ pt = labelsOf o mc.toCtx d ⟨ms, fs⟩ fp := by
+    intro pt hpt
+    simp only [rangePoints, List.mem_map] at hpt
+    obtain ⟨kk, _, rfl⟩ := hpt
+    exact ⟨kk.1, rfl, rfl⟩
+  constructor
+  · rintro ⟨pt, hpt, fp, hkey, hl, ht, hv⟩
+    obtain ⟨fp', hkey', hpl⟩ := hnull pt hpt
+    have : fp' = fp := by rw [hkey] at hkey'; exact (Val.int.inj hkey').symm
+    subst this
+    exact ⟨_, List.mem_map.mpr ⟨pt, hpt, rfl⟩, by simp only [hpl]; exact hl, ht, hv⟩
+  · rintro ⟨p, hp, hl, ht, hv⟩
+    obtain ⟨pt, hpt, rfl⟩ := List.mem_map.mp hp
+    obtain ⟨fp, hkey, hpl⟩ := hnull pt hpt
+    exact ⟨pt, hpt, fp, hkey, by simp only [hpl] at hl; exact hl, ht, hv⟩
+
+/-- **`fn({sel} filters | unwrap l [d]) [by/without (…)]`, every unwrap function both engines implement, one theorem from
+    statement to statement.** Left: as in `engines_agree_unwrapAgg` (rows of the real selector statement over the table as
+    stored, any batching, `| unwrap`, by/without planner, `UnwrapAggPlanner`). Right: the answer of the real whole-query
+    statement (C08 `plan_metric_correct_unwrap`: the direct reading over the table read in timestamp order — composed here
+    with the cross-engine lemma taken at that order: the data hypotheses and the multiset of selector rows do not depend on
+    it, `seriesStoreOk_sortedDb`, `groupHashOk_sortedDb`, `baseX_sortedDb_perm`). Hypotheses: those of
+    `engines_agree_unwrapAgg`, distinct table names, step ≤ range. -/
+theorem engines_agree_unwrapAgg_sql (parse : Bytes → Option Rat) (o : Oracles) (E : Env Rat) (hE : E.num = ratOps parse)
+    (h0 : E.o.isNum [] = false) (mc : MCtx) (hn : mc.namesOk) (d : LokiDb) (hd : SeriesStoreOk o mc.toCtx d)
+    (ms : List Matcher) (hm : ms.length ≤ 63) (fs : List Stage)
+    (label : String) (lbl : Bytes) (hlbl : label.toUTF8.toList = lbl) (hent : label = "_entry" ↔ lbl = entryKey)
+    (hnum : ∀ s : Bytes, o.toFloat s = ((if s = [] then none else parse s).getD 0))
+    (fn : Read.UnwrapFn) (fn' : LogQL.UnwrapFn) (hfn : toUnwrap fn = some fn') (g? : Option Grouping)
+    (hgk : ∀ gg, g? = some gg → GroupHashOk o mc.toCtx d ⟨ms, fs⟩ gg)
+    (dur k n : Nat) (hdur : 0 < dur) (hfrom : mc.fromNs = (k : Int) * dur) (hto : mc.toNs = mc.fromNs + (n : Int) * dur)
+    (hstep : mc.stepNs ≤ (dur : Int))
+    (rc : Read.Ctx) (hrf : rc.fromNs = mc.fromNs) (hrt : rc.toNs = mc.toNs)
+    (hok : MetricOk E rc (unwrapPlan lbl fn dur g?) (chRows E.num o mc.toCtx d ms (fs.map .fl)))
+    (hord : (fn = .firstOverTime ∨ fn = .lastOverTime) →
+      TsOrdered rc.orderAsc (optByWithout E (g?.map toBW) (unwrapStage E lbl (chRows E.num o mc.toCtx d ms (fs.map .fl)))) ∧
+      ∀ e ∈ optByWithout E (g?.map toBW) (unwrapStage E lbl (chRows E.num o mc.toCtx d ms (fs.map .fl))),
+        ∀ e' ∈ optByWithout E (g?.map toBW) (unwrapStage E lbl (chRows E.num o mc.toCtx d ms (fs.map .fl))),
+        e.labels = e'.labels → e.ts = e'.ts → e.val = e'.val)
+    (bs : Batches Rat) (hbs : bs.flatten = chRows E.num o mc.toCtx d ms (fs.map .fl))
+    (l : Read.Labels) (t : Int) (v : Rat) :
+    (∃ e ∈ (runPlan E rc (unwrapPlan lbl fn dur g?) bs).flatten, e.labels = l ∧ e.ts = t ∧ e.val = v) ↔
+    MatrixHas ((evalSelA o (d.toDbM mc) (planMetric mc (.range ⟨.unwrap fn' label, ⟨ms, fs⟩, dur, none, g?, none⟩))).map normRow) l t v := by
+  have hcounts : unwrapCounts fn = true := by cases fn <;> simp [toUnwrap, unwrapCounts] at hfn ⊢
+  have hrun := metricPlan_meets_logql E h0 rc (unwrapPlan lbl fn dur g?) rfl bs
+    (by rw [hbs]; exact chRows_proper E.num o mc.toCtx d ms _) (by rw [hbs]; exact hok)
+  rw [hrun, hbs]
+  have hrows : (chRows E.num o mc.toCtx d ms (fs.map .fl)).Perm
+      ((baseX o mc.toCtx (sortedDb mc.toCtx d) ms (fs.map .fl)).map (scanX (ratOps parse))) := by
+    simp only [chRows, planLogX_correct o mc.toCtx hn.1 d ⟨ms, fs.map .fl⟩ false hm, hE]
+    exact (scanRows_evalLogX_perm (ratOps parse) o mc.toCtx d ms (fs.map .fl)).trans
+      ((baseX_sortedDb_perm o mc.toCtx d ms fs).map _)
+  have hva := valAgree_all o parse dur rc.orderAsc fn fn' hfn _ hord
+  have hsd := seriesStoreOk_sortedDb o mc.toCtx d hd
+  have := unwrap_agree parse o mc.toCtx (sortedDb mc.toCtx d) hsd ms fs E hE label lbl hlbl hent hnum
+    (dirFn rc.orderAsc fn) fn' g? (fun gg hg => groupHashOk_sortedDb o mc.toCtx d ⟨ms, fs⟩ gg (hgk gg hg))
+    dur k n hdur (by simpa [sortedDb] using hfrom) (by simpa [sortedDb] using hto) _ hrows hva l t v
+  rw [C08.plan_metric_correct_unwrap o mc hn d _ (by simp [supportedU, MetricQuery.rangeAgg, hdur, hm]), matrixHas_evalMetric,
+    effWindow_whole mc (.range ⟨.unwrap fn' label, ⟨ms, fs⟩, dur, none, g?, none⟩) k n hfrom hto, metricPoints_range o mc _ _ rfl hstep]
+  simp only [evalPlan, unwrapPlan, Stages.stages, List.foldl_cons, List.foldl_nil, Stages.stage, hcounts, if_true, optCompare,
+    hrf, hrt, hE] at this ⊢
+  rw [this]
+  have hmap : ∀ pt ∈ rangePoints o mc.toCtx (sortedDb mc.toCtx d) ⟨.unwrap fn' label, ⟨ms, fs⟩, dur, none, g?, none⟩ mc.fromNs mc.toNs,
+      ptLabels o mc.toCtx (sortedDb mc.toCtx d) ⟨ms, fs⟩ pt = pt.labels := by
+    intro pt hpt
+    obtain ⟨m, hm'⟩ := rangePoints_unwrap_labels o mc.toCtx (sortedDb mc.toCtx d) hsd fn' label ⟨ms, fs⟩ dur none g? none pt hpt
+    exact ptLabels_of_map o mc.toCtx _ _ pt m hm'
+  constructor
+  · rintro ⟨pt, hpt, hl, ht, hv⟩
+    exact ⟨_, List.mem_map.mpr ⟨pt, hpt, rfl⟩, by simp only [hmap pt hpt]; exact hl, ht, hv⟩
+  · rintro ⟨p, hp, hl, ht, hv⟩
+    obtain ⟨pt, hpt, rfl⟩ := List.mem_map.mp hp
+    exact ⟨pt, hpt, by simp only [hmap pt hpt] at hl; exact hl, ht, hv⟩
+
+/-- **…with a grouping clause on the range aggregation** (`sum_over_time(… | unwrap x [d]) by (a)`): the instance of
+    `engines_agree_unwrapAgg_sql` for `engines_agree_byWithout`'s class — in-process `ByWithoutPlanner` (cut labels, own
+    fingerprint) + `UnwrapAggPlanner` over the rows of the real selector statement vs the answer of the real whole-query
+    statement (`ByWithoutPlanner.processSimple`: `mapFilter` + `cityHash64`). -/
+theorem engines_agree_byWithout_sql (parse : Bytes → Option Rat) (o : Oracles) (E : Env Rat) (hE : E.num = ratOps parse)
+    (h0 : E.o.isNum [] = false) (mc : MCtx) (hn : mc.namesOk) (d : LokiDb) (hd : SeriesStoreOk o mc.toCtx d)
+    (ms : List Matcher) (hm : ms.length ≤ 63) (fs : List Stage)
+    (label : String) (lbl : Bytes) (hlbl : label.toUTF8.toList = lbl) (hent : label = "_entry" ↔ lbl = entryKey)
+    (hnum : ∀ s : Bytes, o.toFloat s = ((if s = [] then none else parse s).getD 0))
+    (fn : Read.UnwrapFn) (fn' : LogQL.UnwrapFn) (hfn : toUnwrap fn = some fn') (gg : Grouping)
+    (hgk : GroupHashOk o mc.toCtx d ⟨ms, fs⟩ gg)
+    (dur k n : Nat) (hdur : 0 < dur) (hfrom : mc.fromNs = (k : Int) * dur) (hto : mc.toNs = mc.fromNs + (n : Int) * dur)
+    (hstep : mc.stepNs ≤ (dur : Int))
+    (rc : Read.Ctx) (hrf : rc.fromNs = mc.fromNs) (hrt : rc.toNs = mc.toNs)
+    (hok : MetricOk E rc (unwrapPlan lbl fn dur (some gg)) (chRows E.num o mc.toCtx d ms (fs.map .fl)))
+    (hord : (fn = .firstOverTime ∨ fn = .lastOverTime) →
+      TsOrdered rc.orderAsc (optByWithout E (some (toBW gg)) (unwrapStage E lbl (chRows E.num o mc.toCtx d ms (fs.map .fl)))) ∧
+      ∀ e ∈ optByWithout E (some (toBW gg)) (unwrapStage E lbl (chRows E.num o mc.toCtx d ms (fs.map .fl))),
+        ∀ e' ∈ optByWithout E (some (toBW gg)) (unwrapStage E lbl (chRows E.num o mc.toCtx d ms (fs.map .fl))),
+        e.labels = e'.labels → e.ts = e'.ts → e.val = e'.val)
+    (bs : Batches Rat) (hbs : bs.flatten = chRows E.num o mc.toCtx d ms (fs.map .fl))
+    (l : Read.Labels) (t : Int) (v : Rat) :
+    (∃ e ∈ (runPlan E rc ⟨[.unwrap lbl], some (.unwrap fn, dur), some ⟨gg.isBy, groupingKeys gg⟩, none, none⟩ bs).flatten,
+        e.labels = l ∧ e.ts = t ∧ e.val = v) ↔
+    MatrixHas ((evalSelA o (d.toDbM mc) (planMetric mc (.range ⟨.unwrap fn' label, ⟨ms, fs⟩, dur, none, some gg, none⟩))).map normRow) l t v :=
+  engines_agree_unwrapAgg_sql parse o E hE h0 mc hn d hd ms hm fs label lbl hlbl hent hnum fn fn' hfn (some gg)
+    (fun g' hg' => by cases hg'; exact hgk) dur k n hdur hfrom hto hstep rc hrf hrt hok hord bs hbs l t v
+
+/-! ### the vector aggregation at plan level (extension c09p) -/
+
+/-- the in-process plan of `vfn [by/without (…)] (fn({sel} filters [d]))` when the hand-over is at the selector: the range
+    aggregation, the by/without planner `planAggregators` plans (`by ()` for no clause), `AggOpPlanner` -/
+def vecPlan (fn : Read.RangeFn) (dur : Nat) (vfn : VecFn) (bp bsuf : Option Grouping) : Plan Rat :=
+  ⟨[], some (.range fn, dur), none, none, some (vfn, planVecGrouping ((chosenGrouping bp bsuf).map toBW), none)⟩
+
+/-- the whole query as C08 has it -/
+def vecQuery (fn' : LogQL.RangeFn) (ms : List Matcher) (fs : List Stage) (dur : Nat) (vfn : VecFn) (bp bsuf : Option Grouping) : VecAgg :=
+  ⟨toVec vfn, bp, ⟨.lra fn', ⟨ms, fs⟩, dur, none, none, none⟩, bsuf, none⟩
+
+/-- cityHash64 of the kept labels (ClickHouse's series of the vector aggregation) separates exactly the kept label sets of the
+    streams that have a point in the window — `GroupHashOk` for the grouping of the vector aggregation, stated on the points -/
+def VecHashOk (o : Oracles) (c : LogQL.Ctx) (d : LokiDb) (a : VecAgg) : Prop :=
+  ∀ p ∈ rangePoints o c d a.inner c.fromNs c.toNs, ∀ p' ∈ rangePoints o c d a.inner c.fromNs c.toNs,
+    ((canonLabels (asMap (ptLabels o c d a.inner.sel p))).filter (fun kv => (groupingKeys (aggGrouping a)).contains kv.1 == (aggGrouping a).isBy) =
+     (canonLabels (asMap (ptLabels o c d a.inner.sel p'))).filter (fun kv => (groupingKeys (aggGrouping a)).contains kv.1 == (aggGrouping a).isBy)) ↔
+    (regroup o (aggGrouping a) (ptLabels o c d a.inner.sel p)).1 = (regroup o (aggGrouping a) (ptLabels o c d a.inner.sel p')).1
+
+/-- **engines_agree_vectorAgg_plan — `sum|min|max|avg|count [by/without (…)] (rate|count_over_time|bytes_rate|bytes_over_time({sel} filters [d]))`
+    as a whole plan.** In process: the rows of the real selector statement, any batching, the in-process range stage, the by/without
+    planner, `AggOpPlanner` (`Read.runPlan` of `vecPlan`). ClickHouse alone: C08's `aggStage ∘ rangePoints`. Same series (kept label
+    set), timestamps, values. The stage-level `engines_agree_vectorAgg` composed with the inner range aggregation: the two inner
+    matrices are the same entries up to order (`range_rows_perm`: `engines_agree_rangeAgg`'s membership statement + both sides
+    duplicate-free + the shape of the entries), the range points lie on the grid and carry a label document without a repeated name
+    (`SeriesStoreOk`). Hypotheses: exact rationals; `SeriesStoreOk`; whole-bucket window; `MetricOk` (series caps; the in-process
+    fingerprints separate the label sets at both aggregators); `VecHashOk`. -/
+theorem engines_agree_vectorAgg_plan (parse : Bytes → Option Rat) (o : Oracles) (E : Env Rat) (hE : E.num = ratOps parse)
+    (h0 : E.o.isNum [] = false) (c : LogQL.Ctx) (hn : c.namesOk) (d : LokiDb) (hd : SeriesStoreOk o c d)
+    (ms : List Matcher) (hm : ms.length ≤ 63) (fs : List Stage)
+    (fn : Read.RangeFn) (fn' : LogQL.RangeFn) (hfn : toLra fn = some fn') (vfn : VecFn) (bp bsuf : Option Grouping)
+    (dur k n : Nat) (hdur : 0 < dur) (hfrom : c.fromNs = (k : Int) * dur) (hto : c.toNs = c.fromNs + (n : Int) * dur)
+    (hgk : VecHashOk o c d (vecQuery fn' ms fs dur vfn bp bsuf))
+    (rc : Read.Ctx) (hrf : rc.fromNs = c.fromNs) (hrt : rc.toNs = c.toNs)
+    (hok : MetricOk E rc (vecPlan fn dur vfn bp bsuf) (chRows E.num o c d ms (fs.map .fl)))
+    (bs : Batches Rat) (hbs : bs.flatten = chRows E.num o c d ms (fs.map .fl))
+    (l : Read.Labels) (t : Int) (v : Rat) :
+    (∃ e ∈ (runPlan E rc (vecPlan fn dur vfn bp bsuf) bs).flatten, e.labels = l ∧ e.ts = t ∧ e.val = v) ↔
+    (∃ pt ∈ aggStage o c d ⟨ms, fs⟩ (vecQuery fn' ms fs dur vfn bp bsuf)
+        (rangePoints o c d ⟨.lra fn', ⟨ms, fs⟩, dur, none, none, none⟩ c.fromNs c.toNs),
+        canonLabels (asMap pt.labels) = l ∧ pt.ts = t ∧ pt.value = v) := by
+  have hcounts : rangeCounts fn = true := by cases fn <;> simp [toLra, rangeCounts] at hfn ⊢
+  have hrun := metricPlan_meets_logql E h0 rc (vecPlan fn dur vfn bp bsuf) rfl bs
+    (by rw [hbs]; exact chRows_proper E.num o c d ms _) (by rw [hbs]; exact hok)
+  rw [hrun, hbs]
+  have hrows : (chRows E.num o c d ms (fs.map .fl)).Perm ((baseX o c d ms (fs.map .fl)).map (scanX (ratOps parse))) := by
+    simp only [chRows, planLogX_correct o c hn d ⟨ms, fs.map .fl⟩ false hm, hE]
+    exact scanRows_evalLogX_perm (ratOps parse) o c d ms (fs.map .fl)
+  have hinner := range_rows_perm parse o c d hd ms fs fn fn' hfn dur k n hdur hfrom hto _ hrows
+  have := vec_agree parse o c d ⟨ms, fs⟩ E (vecQuery fn' ms fs dur vfn bp bsuf) vfn rfl
+    (rangePoints o c d ⟨.lra fn', ⟨ms, fs⟩, dur, none, none, none⟩ c.fromNs c.toNs) (Grid.of c.fromNs c.toNs dur)
+    (fun p hp => rangePoints_on_grid o c d ⟨ms, fs⟩ fn' dur k n hdur hfrom hto p hp)
+    (fun i j h => grid_inj c.fromNs dur hdur i j h)
+    (fun p hp => rangePoints_labels_doc o c d hd ⟨ms, fs⟩ fn' dur p hp)
+    hgk _ hinner l t v
+  simp only [evalPlan, vecPlan, vecQuery, Stages.stages, List.foldl_nil, hcounts, if_true, optCompare, hrf, hrt, hE] at this ⊢
+  exact this
+
+/-- **…from statement to statement**: composed with C08 `plan_metric_correct` for the real statement of the whole query
+    (`pre_without`, `labels_<id>`, `lra_main`, … on the samples path, or the metrics_15s shortcut under `ShortcutOk`), step ≤ range.
+    Left: the in-process engine over any batching of the rows of the real selector statement; right: the answer of the real
+    whole-query statement. -/
+theorem engines_agree_vectorAgg_sql (parse : Bytes → Option Rat) (o : Oracles) (E : Env Rat) (hE : E.num = ratOps parse)
+    (h0 : E.o.isNum [] = false) (mc : MCtx) (hn : mc.namesOk) (d : LokiDb) (hd : SeriesStoreOk o mc.toCtx d)
+    (ms : List Matcher) (hm : ms.length ≤ 63) (fs : List Stage)
+    (fn : Read.RangeFn) (fn' : LogQL.RangeFn) (hfn : toLra fn = some fn') (vfn : VecFn) (bp bsuf : Option Grouping)
+    (dur k n : Nat) (hdur : 0 < dur) (hfrom : mc.fromNs = (k : Int) * dur) (hto : mc.toNs = mc.fromNs + (n : Int) * dur)
+    (hgk : VecHashOk o mc.toCtx d (vecQuery fn' ms fs dur vfn bp bsuf))
+    (hstep : mc.stepNs ≤ (dur : Int))
+    (hsc : takesShortcut (.agg (vecQuery fn' ms fs dur vfn bp bsuf)) = true → ShortcutOk o d (.agg (vecQuery fn' ms fs dur vfn bp bsuf)))
+    (rc : Read.Ctx) (hrf : rc.fromNs = mc.fromNs) (hrt : rc.toNs = mc.toNs)
+    (hok : MetricOk E rc (vecPlan fn dur vfn bp bsuf) (chRows E.num o mc.toCtx d ms (fs.map .fl)))
+    (bs : Batches Rat) (hbs : bs.flatten = chRows E.num o mc.toCtx d ms (fs.map .fl))
+    (l : Read.Labels) (t : Int) (v : Rat) :
+    (∃ e ∈ (runPlan E rc (vecPlan fn dur vfn bp bsuf) bs).flatten, e.labels = l ∧ e.ts = t ∧ e.val = v) ↔
+    MatrixHas ((evalSelA o (d.toDbM mc) (planMetric mc (.agg (vecQuery fn' ms fs dur vfn bp bsuf)))).map normRow) l t v := by
+  rw [engines_agree_vectorAgg_plan parse o E hE h0 mc.toCtx hn.1 d hd ms hm fs fn fn' hfn vfn bp bsuf dur k n hdur hfrom hto hgk
+    rc hrf hrt hok bs hbs l t v]
+  rw [C08.plan_metric_correct o mc hn d _ (by simp [supported, vecQuery, MetricQuery.rangeAgg, hdur, hm]) hsc, matrixHas_evalMetric,
+    effWindow_whole mc (.agg (vecQuery fn' ms fs dur vfn bp bsuf)) k n hfrom hto,
+    metricPoints_agg o mc d (vecQuery fn' ms fs dur vfn bp bsuf) rfl rfl hstep]
+  have hmap : ∀ pt ∈ aggStage o mc.toCtx d ⟨ms, fs⟩ (vecQuery fn' ms fs dur vfn bp bsuf)
+        (rangePoints o mc.toCtx d ⟨.lra fn', ⟨ms, fs⟩, dur, none, none, none⟩ mc.fromNs mc.toNs),
+      ptLabels o mc.toCtx d ⟨ms, fs⟩ pt = pt.labels := by
+    intro pt hpt
+    obtain ⟨m, hm'⟩ := aggStage_labels o mc.toCtx d ⟨ms, fs⟩ _ _
+      (fun p hp => (rangePoints_labels_doc o mc.toCtx d hd ⟨ms, fs⟩ fn' dur p hp).imp (fun _ h => h.1)) pt hpt
+    exact ptLabels_of_map o mc.toCtx d _ pt m hm'
+  simp only [vecQuery] at hmap ⊢
+  constructor
+  · rintro ⟨pt, hpt, hl, ht, hv⟩
+    exact ⟨_, List.mem_map.mpr ⟨pt, hpt, rfl⟩, by simp only [hmap pt hpt]; exact hl, ht, hv⟩
+  · rintro ⟨p, hp, hl, ht, hv⟩
+    obtain ⟨pt, hpt, rfl⟩ := List.mem_map.mp hp
+    exact ⟨pt, hpt, by simp only [hmap pt hpt] at hl; exact hl, ht, hv⟩
 
 /-! ### the recorded finding: a step above the range -/
 /-- `clickhouse_planner.StepFixPlanner` on the matrix of the range / vector aggregation (rows ordered by series, then time):
